@@ -43,8 +43,8 @@ NOTE_PARAMS = ["onset_tolerance", "pitch_tolerance", "offset_ratio",
 
 
 def plan(tier, seed):
-    n = 50 if tier == "quick" else 1200
-    return [{"name": "mono-%d" % p, "n": n} for p in range(10 if tier == "quick" else 16)]
+    n = 220 if tier == "quick" else 4000
+    return [{"name": "mono-%d" % p, "n": n} for p in range(16)]
 
 
 def _get(v, i):
